@@ -1,0 +1,45 @@
+//go:build verif
+
+// Contracts for package rawmessagesfilter, read by /verif/govc (comment-only: no declarations, no effect on any build).
+
+package rawmessagesfilter
+
+// Delivery of a message to the protocol logic of the current term. The preconditions are the statement of C17
+// (and the FilterOK facts the handlers of C08 rely on); they are obligations at every delivery site of the filter.
+// The callee is the term: handling a message may commit the block, which starts the next height and re-enters
+// ConsumeCacheMessages (WorkerLoop.onCommit -> onNewConsensusRound), hence the frame.
+//@ iface rawmessagesfilter.ConsensusMessagesHandler.HandleConsensusMessage
+//@   requires [own-height] message.BlockHeight() == caller.state.height
+//@   requires [own-instance] message.InstanceId() == caller.instanceId
+//@   requires [not-from-me] message.SenderMemberId() != caller.myMemberId
+//@   modifies state.State.height, state.State.view, rawmessagesfilter.RawMessageFilter.consensusMessagesHandler, rawmessagesfilter.RawMessageFilter.latestFutureBlockHeight, M:Int:Slice_Iface
+//@   ensures caller.state.height >= old(caller.state.height)
+//@   ensures caller.state == old(caller.state) && caller.futureCache == old(caller.futureCache)
+//@   ensures forall k int, i int :: has(caller.futureCache, k) && 0 <= i && i < len(caller.futureCache[k]) ==> caller.futureCache[k][i].BlockHeight() == k && caller.futureCache[k][i].InstanceId() == caller.instanceId && caller.futureCache[k][i].SenderMemberId() != caller.myMemberId
+
+//@ func (*RawMessageFilter).clearCacheEarlierThan
+//@   props C17
+//@   requires f.futureCache != nil
+//@   ensures [earlier-removed] forall k int :: k < height ==> !has(f.futureCache, k)
+//@   ensures [others-kept] forall k int :: k >= height ==> has(f.futureCache, k) == old(has(f.futureCache, k)) && f.futureCache[k] == old(f.futureCache[k])
+//@   ensures [frame] f.futureCache == old(f.futureCache)
+//@   loop range f.futureCache
+//@     invariant [only-deletions] forall k int :: has(f.futureCache, k) ==> old(has(f.futureCache, k)) && f.futureCache[k] == old(f.futureCache[k])
+//@     invariant [only-earlier-deleted] forall k int :: old(has(f.futureCache, k)) && !has(f.futureCache, k) ==> k < height
+//@     invariant [visited-earlier-gone] forall k int :: visited(k) && k < height ==> !has(f.futureCache, k)
+//@     invariant [frame] f.futureCache == old(f.futureCache)
+
+//@ func (*RawMessageFilter).HandleConsensusRawMessage
+//@   props C17 C08
+//@   requires f.state != nil && f.futureCache != nil && rawMessage != nil
+//@   requires [inv.cache] forall k int, i int :: has(f.futureCache, k) && 0 <= i && i < len(f.futureCache[k]) ==> f.futureCache[k][i].BlockHeight() == k && f.futureCache[k][i].InstanceId() == f.instanceId && f.futureCache[k][i].SenderMemberId() != f.myMemberId
+//@   ensures [inv.cache] forall k int, i int :: has(f.futureCache, k) && 0 <= i && i < len(f.futureCache[k]) ==> f.futureCache[k][i].BlockHeight() == k && f.futureCache[k][i].InstanceId() == f.instanceId && f.futureCache[k][i].SenderMemberId() != f.myMemberId
+
+//@ func (*RawMessageFilter).ConsumeCacheMessages
+//@   props C17
+//@   requires f.state != nil && f.futureCache != nil
+//@   requires [inv.cache] forall k int, i int :: has(f.futureCache, k) && 0 <= i && i < len(f.futureCache[k]) ==> f.futureCache[k][i].BlockHeight() == k && f.futureCache[k][i].InstanceId() == f.instanceId && f.futureCache[k][i].SenderMemberId() != f.myMemberId
+//@   loop range messages
+//@     invariant [frame] f.state == old(f.state) && f.futureCache == old(f.futureCache)
+//@     invariant [height-stable] f.state.height == height
+//@     invariant [messages-of-this-height] forall i int :: 0 <= i && i < len(messages) ==> messages[i].BlockHeight() == height && messages[i].InstanceId() == f.instanceId && messages[i].SenderMemberId() != f.myMemberId
